@@ -10,6 +10,9 @@
 #include <bxdecay0/particle.h>
 #include "pool.hpp"
 #include <algorithm>
+#include <csignal>
+#include <fcntl.h>
+#include <unistd.h>
 #include <cmath>
 #include <cstdio>
 #include <cstring>
@@ -72,7 +75,9 @@ static void round_trip(const std::string & dir, Result & R, bool thorough)
   const double VALS[] = {0.0, 0.1, -0.1, 1.0 / 3.0, 1.23456789012345e-13, 9.99999999999999e+2, -7.25e-5, 2.2250738585072014e-308, 1.0e300};
   const double TIMES[] = {0.0, 0.1, 1.0 / 3.0, 1.23456789012345e-13, 9.99999999999999e+2, 2.2250738585072014e-308, 4.5e17};
   const int NV = sizeof VALS / sizeof VALS[0], NT = sizeof TIMES / sizeof TIMES[0];
-  const bxdecay0::particle_code CODES[] = {bxdecay0::GAMMA, bxdecay0::POSITRON, bxdecay0::ELECTRON, bxdecay0::ALPHA};
+  // every species of the particle-code enumeration (the generators emit four of them; files may hold all six)
+  const bxdecay0::particle_code CODES[] = {bxdecay0::GAMMA, bxdecay0::POSITRON, bxdecay0::ELECTRON, bxdecay0::ALPHA, bxdecay0::NEUTRON, bxdecay0::PROTON};
+  const int NC = sizeof CODES / sizeof CODES[0];
   const char * LABELS[] = {"Co60", "Bi214+Po214", "Ta180m-B-"};
   std::vector<event> evs;
   auto mk = [&](int n, int s, int lab, double evt) {
@@ -81,7 +86,7 @@ static void round_trip(const std::string & dir, Result & R, bool thorough)
     e.set_time(evt);
     for (int k = 0; k < n; k++) {
       particle p;
-      p.set_code(CODES[(s + k) % 4]);
+      p.set_code(CODES[(s + k) % NC]);
       p.set_time(TIMES[(s / 4 + k) % NT]);
       p.set_momentum(VALS[(s + 2 * k) % NV], VALS[(s / NV + 3 * k + 1) % NV], VALS[(s / (NV * NV) + 5 * k + 2) % NV]);
       e.add_particle(p);
@@ -89,7 +94,7 @@ static void round_trip(const std::string & dir, Result & R, bool thorough)
     return e;
   };
   // single-particle events: the full product code x time x px x py x pz
-  for (int c = 0; c < 4; c++)
+  for (int c = 0; c < NC; c++)
     for (int t = 0; t < NT; t++)
       for (int x = 0; x < NV; x++)
         for (int y = 0; y < NV; y++)
@@ -160,6 +165,24 @@ static void round_trip(const std::string & dir, Result & R, bool thorough)
   }
 }
 
+// a crash inside the reader (stack overflow on an endless re-open, a wild index) must end up as a violation naming the
+// scenario, not as a dead harness
+static char g_where[512];
+static char g_crash_path[512];
+static void on_fatal(int sig)
+{
+  int fd = open(g_crash_path, O_WRONLY | O_CREAT | O_TRUNC, 0644);
+  if (fd >= 0) {
+    char b[64];
+    int n = snprintf(b, sizeof b, "signal %d\n", sig);
+    ssize_t w = write(fd, b, n);
+    w = write(fd, g_where, strlen(g_where));
+    (void)w;
+    close(fd);
+  }
+  _exit(77);
+}
+
 // ---------------------------------------------------------------- part 2
 static event stream_event(int k)
 {
@@ -217,6 +240,7 @@ static void window_model(const std::string & dir, int nmax, Result & R)
             std::string where = "N=" + std::to_string(N) + " files=" + stag + " start=" + std::to_string(start) + " max=" + std::to_string(max);
             std::string key = "window:N" + std::to_string(N) + ":files" + stag + ":start" + std::to_string(start) + ":max" + std::to_string(max);
             R.runs++;
+            snprintf(g_where, sizeof g_where, "%s call pattern %ld", where.c_str(), pat);
             try {
               event_reader::config_type cfg;
               cfg.event_files = files;
@@ -296,6 +320,23 @@ int main(int argc, char ** argv)
   FILE * f = freopen("/dev/null", "w", stderr);
   (void)f;
   std::clog.rdbuf(nullptr);
+  snprintf(g_crash_path, sizeof g_crash_path, "%s.crash", out.c_str());
+  unlink(g_crash_path);
+  snprintf(g_where, sizeof g_where, "round trip");
+  {
+    // the handler must run on its own stack: the typical crash here is a stack overflow
+    static char altstack[1 << 16];
+    stack_t ss;
+    ss.ss_sp = altstack;
+    ss.ss_size = sizeof altstack;
+    ss.ss_flags = 0;
+    sigaltstack(&ss, nullptr);
+    struct sigaction sa;
+    memset(&sa, 0, sizeof sa);
+    sa.sa_handler = on_fatal;
+    sa.sa_flags = SA_ONSTACK;
+    for (int sg : {SIGSEGV, SIGABRT, SIGBUS, SIGFPE, SIGILL}) sigaction(sg, &sa, nullptr);
+  }
   Result R;
   round_trip(dir, R, thorough);
   window_model(dir, nmax, R);
